@@ -27,10 +27,15 @@ func init() { vh.Register("C18", runC18) }
 
 // ---- case language (what the oracle reads is documented in lean/EinoV/Oracle/C18.lean) ----
 
+// A tool call, or — inside a chunk of the script — one streamed delta of a tool call: Index is
+// schema.ToolCall.Index (absent = nil), the key under which the deltas of one call are merged;
+// a delta carries the call's id / name when it has them and a piece of the arguments. Calls
+// reported by the implementation and by the oracle carry no index.
 type c18Call struct {
-	ID   string `json:"id"`
-	Name string `json:"name"`
-	Args string `json:"args"`
+	ID    string `json:"id"`
+	Name  string `json:"name"`
+	Args  string `json:"args"`
+	Index *int   `json:"index,omitempty"`
 }
 
 type c18Msg struct {
@@ -216,15 +221,71 @@ func c18ApplyExtras(msg *schema.Message, tags []string, pos int) {
 	}
 }
 
+// c18HasIndex: some delta of the reply carries an explicit Index.
+func c18HasIndex(r *c18Reply) bool {
+	for _, ch := range r.Chunks {
+		for _, c := range ch.Calls {
+			if c.Index != nil {
+				return true
+			}
+		}
+	}
+	return false
+}
+
+// c18Assemble is the scripted model's own view of the reply it streams: the index-less calls in
+// arrival order, then one call per index (ascending) with the first non-empty id and name and
+// the argument pieces joined in arrival order. It is what the model's Generate returns.
+func c18Assemble(r *c18Reply) []c18Call {
+	out := []c18Call{}
+	groups := map[int]*c18Call{}
+	var order []int
+	for _, ch := range r.Chunks {
+		for _, d := range ch.Calls {
+			if d.Index == nil {
+				out = append(out, d)
+				continue
+			}
+			g := groups[*d.Index]
+			if g == nil {
+				g = &c18Call{}
+				groups[*d.Index] = g
+				order = append(order, *d.Index)
+			}
+			if g.ID == "" {
+				g.ID = d.ID
+			}
+			if g.Name == "" {
+				g.Name = d.Name
+			}
+			g.Args += d.Args
+		}
+	}
+	sort.Ints(order)
+	for _, i := range order {
+		out = append(out, *groups[i])
+	}
+	return out
+}
+
 func (m *c18Model) chunkMsgs(r *c18Reply) []*schema.Message {
 	var out []*schema.Message
 	idx := 0
+	// Indexed (implementation-only switch): whole calls get Index = position; a reply that
+	// scripts its own indexes is streamed exactly as scripted
+	auto := m.c.Indexed && !c18HasIndex(r)
 	for pos, ch := range r.Chunks {
 		msg := &schema.Message{Role: schema.Assistant, Content: ch.Content}
 		c18ApplyExtras(msg, ch.Extras, pos)
 		for _, c := range ch.Calls {
 			tc := schema.ToolCall{ID: c.ID, Type: "function", Function: schema.FunctionCall{Name: c.Name, Arguments: c.Args}}
-			if m.c.Indexed {
+			if c.Index != nil {
+				i := *c.Index
+				tc.Index = &i
+				if c.ID == "" && c.Name == "" {
+					tc.Type = "" // a continuation delta: argument piece only
+				}
+			} else if auto {
 				i := idx
 				tc.Index = &i
 			}
@@ -245,9 +306,6 @@ func (m *c18Model) Generate(ctx context.Context, input []*schema.Message, opts .
 	var sb strings.Builder
 	for pos, ch := range r.Chunks {
 		sb.WriteString(ch.Content)
-		for _, c := range ch.Calls {
-			full.ToolCalls = append(full.ToolCalls, schema.ToolCall{ID: c.ID, Type: "function", Function: schema.FunctionCall{Name: c.Name, Arguments: c.Args}})
-		}
 		// the whole message carries the metadata of all its chunks (string extras concatenated)
 		one := &schema.Message{}
 		c18ApplyExtras(one, ch.Extras, pos)
@@ -275,6 +333,9 @@ func (m *c18Model) Generate(ctx context.Context, input []*schema.Message, opts .
 		if one.Name != "" {
 			full.Name = one.Name
 		}
+	}
+	for _, c := range c18Assemble(r) {
+		full.ToolCalls = append(full.ToolCalls, schema.ToolCall{ID: c.ID, Type: "function", Function: schema.FunctionCall{Name: c.Name, Arguments: c.Args}})
 	}
 	full.Content = sb.String()
 	return full, nil
@@ -709,14 +770,32 @@ func c18Late(r *c18Reply) bool {
 	return false
 }
 
+// c18IndexShape: the indexes of a chunk's deltas ("" for calls without index), e.g. "[0,1]"
+func c18IndexShape(cs []c18Call) string {
+	var parts []string
+	any := false
+	for _, c := range cs {
+		if c.Index != nil {
+			any = true
+			parts = append(parts, fmt.Sprint(*c.Index))
+		} else {
+			parts = append(parts, "-")
+		}
+	}
+	if !any {
+		return ""
+	}
+	return "[" + strings.Join(parts, ",") + "]"
+}
+
 func c18ReplyShape(r *c18Reply) string {
 	var sb strings.Builder
 	for _, ch := range r.Chunks {
 		switch {
 		case len(ch.Calls) > 0 && ch.Content != "":
-			fmt.Fprintf(&sb, "B%d", len(ch.Calls))
+			fmt.Fprintf(&sb, "B%d%s", len(ch.Calls), c18IndexShape(ch.Calls))
 		case len(ch.Calls) > 0:
-			fmt.Fprintf(&sb, "T%d", len(ch.Calls))
+			fmt.Fprintf(&sb, "T%d%s", len(ch.Calls), c18IndexShape(ch.Calls))
 		case ch.Content != "":
 			sb.WriteString("c")
 		case len(ch.Extras) > 0:
@@ -734,17 +813,62 @@ func c18ReplyShape(r *c18Reply) string {
 // function of the script). Such scripts are outside the modelled domain: only Generate is
 // compared with the model, Stream is only required not to panic or hang.
 func c18Malformed(c *c18Case) bool {
+	for i := range c.Script {
+		for j := range c.Script[i].Chunks {
+			if !c18ChunkCanonical(&c.Script[i].Chunks[j]) {
+				return true // a chunk that is not a well-formed message (never generated; replays)
+			}
+		}
+	}
 	if len(c.RD) == 0 {
 		return false
 	}
-	for _, r := range c.Script {
+	for i := range c.Script {
 		seen := map[string]bool{}
-		for _, ch := range r.Chunks {
-			for _, cl := range ch.Calls {
-				if seen[cl.ID] {
+		for _, cl := range c18Assemble(&c.Script[i]) { // the calls of the assembled message
+			if seen[cl.ID] {
+				return true
+			}
+			seen[cl.ID] = true
+		}
+	}
+	return false
+}
+
+// c18Interleaved: in the flattened delta stream of the reply, the deltas of some index are not
+// contiguous (a delta of another index sits between two of them).
+func c18Interleaved(r *c18Reply) bool {
+	closed := map[int]bool{}
+	last := -1
+	for _, ch := range r.Chunks {
+		for _, d := range ch.Calls {
+			if d.Index == nil {
+				continue
+			}
+			if *d.Index != last {
+				if closed[*d.Index] {
 					return true
 				}
-				seen[cl.ID] = true
+				if last >= 0 {
+					closed[last] = true
+				}
+				last = *d.Index
+			}
+		}
+	}
+	return false
+}
+
+// c18Fragmented: some index of the reply has more than one delta.
+func c18Fragmented(r *c18Reply) bool {
+	n := map[int]int{}
+	for _, ch := range r.Chunks {
+		for _, d := range ch.Calls {
+			if d.Index != nil {
+				n[*d.Index]++
+				if n[*d.Index] > 1 {
+					return true
+				}
 			}
 		}
 	}
@@ -799,6 +923,210 @@ func c18Content(r *vh.Rand, pieces int) []string {
 	return out
 }
 
+// c18SplitArgs cuts s into n pieces (some possibly empty) at random positions.
+func c18SplitArgs(r *vh.Rand, s string, n int) []string {
+	cuts := make([]int, 0, n+1)
+	cuts = append(cuts, 0)
+	for i := 1; i < n; i++ {
+		cuts = append(cuts, r.Intn(len(s)+1))
+	}
+	cuts = append(cuts, len(s))
+	sort.Ints(cuts)
+	out := make([]string, n)
+	for i := range out {
+		out[i] = s[cuts[i]:cuts[i+1]]
+	}
+	return out
+}
+
+// c18Deltas: the delta sequence of one call under index ix: a head with id and name (and maybe
+// the first argument piece), then `pieces` argument pieces; now and then the id / name is
+// repeated on a later delta, or a delta carries nothing but the index.
+func c18Deltas(r *vh.Rand, c c18Call, ix int, pieces int) []c18Call {
+	mk := func() c18Call { i := ix; return c18Call{Index: &i} }
+	parts := c18SplitArgs(r, c.Args, pieces)
+	head := mk()
+	head.ID, head.Name = c.ID, c.Name
+	if r.Bool() {
+		head.Args, parts = parts[0], parts[1:]
+	}
+	out := []c18Call{head}
+	for _, p := range parts {
+		d := mk()
+		d.Args = p
+		if r.Chance(12) {
+			d.ID = c.ID
+		}
+		if r.Chance(8) {
+			d.Name = c.Name
+		}
+		out = append(out, d)
+	}
+	if r.Chance(6) {
+		out = append(out, mk())
+	}
+	return out
+}
+
+// c18Arrange merges the per-call delta sequences into chunks' worth of deltas:
+// "contig" = the deltas of each call back to back, cut into chunks at random;
+// "rr-chunk" = chunk j carries the j-th delta of every call (what providers with parallel tool
+// calls send); "rr-single" = the same order, one delta per chunk; "random" = a random merge
+// that keeps each call's deltas in order, cut into chunks of 1-3 deltas.
+func c18Arrange(r *vh.Rand, per [][]c18Call, how string) [][]c18Call {
+	var groups [][]c18Call
+	cut := func(flat []c18Call, max int) {
+		for i := 0; i < len(flat); {
+			j := i + 1
+			if r != nil && max > 1 {
+				j = i + r.Range(1, max)
+			}
+			if j > len(flat) {
+				j = len(flat)
+			}
+			groups = append(groups, flat[i:j])
+			i = j
+		}
+	}
+	switch how {
+	case "contig":
+		var flat []c18Call
+		for _, ds := range per {
+			flat = append(flat, ds...)
+		}
+		cut(flat, 3)
+	case "rr-chunk", "rr-single":
+		for j := 0; ; j++ {
+			var g []c18Call
+			for _, ds := range per {
+				if j < len(ds) {
+					g = append(g, ds[j])
+				}
+			}
+			if len(g) == 0 {
+				break
+			}
+			if how == "rr-chunk" {
+				groups = append(groups, g)
+			} else {
+				cut(g, 1)
+			}
+		}
+	default: // random merge
+		pos := make([]int, len(per))
+		var flat []c18Call
+		for {
+			var live []int
+			for i, ds := range per {
+				if pos[i] < len(ds) {
+					live = append(live, i)
+				}
+			}
+			if len(live) == 0 {
+				break
+			}
+			i := live[r.Intn(len(live))]
+			flat = append(flat, per[i][pos[i]])
+			pos[i]++
+		}
+		cut(flat, 3)
+	}
+	return groups
+}
+
+// c18CanonChunks makes every chunk's worth of deltas a well-formed message of its own: the tool
+// calls of one message are distinct calls, so a chunk has at most one delta per index (a group
+// with two deltas of one index is cut in front of the second), index-less calls first, indexed
+// ones by ascending index — the order providers emit and the order ConcatMessages produces. (A
+// stream of exactly one chunk is handed on as it is, without ConcatMessages; only for such chunks
+// is that the assembled message.)
+func c18CanonChunks(groups [][]c18Call) [][]c18Call {
+	var out [][]c18Call
+	for _, g := range groups {
+		var cur []c18Call
+		seen := map[int]bool{}
+		flush := func() {
+			if len(cur) > 0 {
+				sort.SliceStable(cur, func(i, j int) bool {
+					a, b := cur[i].Index, cur[j].Index
+					switch {
+					case a == nil:
+						return b != nil
+					case b == nil:
+						return false
+					}
+					return *a < *b
+				})
+				out = append(out, cur)
+			}
+			cur, seen = nil, map[int]bool{}
+		}
+		for _, d := range g {
+			if d.Index != nil {
+				if seen[*d.Index] {
+					flush()
+				}
+				seen[*d.Index] = true
+			}
+			cur = append(cur, d)
+		}
+		flush()
+	}
+	return out
+}
+
+// c18ChunkCanonical: the chunk's tool calls are a well-formed message (see c18CanonChunks).
+func c18ChunkCanonical(ch *c18Chunk) bool {
+	last, indexed := -1, false
+	for _, d := range ch.Calls {
+		if d.Index == nil {
+			if indexed {
+				return false
+			}
+			continue
+		}
+		if indexed && *d.Index <= last {
+			return false
+		}
+		indexed, last = true, *d.Index
+	}
+	return true
+}
+
+// c18Fragment turns the whole calls of a turn into a stream of deltas keyed by Index.
+func c18Fragment(r *vh.Rand, calls []c18Call) [][]c18Call {
+	n := len(calls)
+	idx := make([]int, n)
+	for i := range idx {
+		idx[i] = i
+	}
+	switch {
+	case r.Chance(15): // descending: the assembled order is not the arrival order
+		for i := range idx {
+			idx[i] = n - 1 - i
+		}
+	case r.Chance(15): // gaps
+		for i := range idx {
+			idx[i] = 3*i + r.Intn(3)
+		}
+	case r.Chance(10):
+		idx = r.Perm(n)
+	}
+	whole := -1 // one call may arrive whole and without Index next to the indexed ones
+	if n >= 2 && r.Chance(12) {
+		whole = r.Intn(n)
+	}
+	per := make([][]c18Call, n)
+	for i, c := range calls {
+		if i == whole {
+			per[i] = []c18Call{c}
+			continue
+		}
+		per[i] = c18Deltas(r, c, idx[i], r.Range(1, 3))
+	}
+	return c18CanonChunks(c18Arrange(r, per, []string{"contig", "rr-chunk", "rr-chunk", "rr-single", "random", "random"}[r.Intn(6)]))
+}
+
 func c18GenReply(r *vh.Rand, k int, ncalls int, toolNames []string, forceLate bool) c18Reply {
 	var calls []c18Call
 	for i := 0; i < ncalls; i++ {
@@ -832,7 +1160,11 @@ func c18GenReply(r *vh.Rand, k int, ncalls int, toolNames []string, forceLate bo
 	var items []item
 	// split calls into 1..min(3,ncalls) groups
 	var groups [][]c18Call
-	if ncalls > 0 {
+	if ncalls > 0 && r.Chance(40) {
+		// the calls are streamed as deltas keyed by Index, the deltas of different calls
+		// contiguous / one per call per chunk / merged at random
+		groups = c18Fragment(r, calls)
+	} else if ncalls > 0 {
 		g := r.Range(1, ncalls)
 		if g > 3 {
 			g = 3
@@ -1056,6 +1388,96 @@ func c18Corpus() []*c18Case {
 			out = append(out, c)
 		}
 	}
+	out = append(out, c18DeltaCorpus(base, answer)...)
+	return out
+}
+
+// c18DeltaCorpus: one turn with 2-3 parallel tool calls streamed as deltas keyed by Index —
+// head (id, name) then the arguments in 1-2 pieces — for every arrangement of the deltas
+// (each call's deltas back to back / one delta of every call per chunk / the same order with one
+// delta per chunk), index assignment (ascending, descending = assembled order differs from
+// arrival order, with gaps), checker and host; plus a call that arrives whole without Index
+// next to indexed ones, ids repeated on every delta, and a return-directly tool among the calls.
+func c18DeltaCorpus(base func() *c18Case, answer c18Reply) []*c18Case {
+	var out []*c18Case
+	ip := func(i int) *int { return &i }
+	deltas := func(k int, name string, ix int, pieces int, repeatID bool) []c18Call {
+		id := fmt.Sprintf("call_%d", k)
+		args := []string{"{\"k\":", fmt.Sprintf("%d}", k)}
+		if pieces == 1 {
+			args = []string{args[0] + args[1]}
+		}
+		ds := []c18Call{{ID: id, Name: name, Index: ip(ix)}}
+		for _, a := range args {
+			d := c18Call{Args: a, Index: ip(ix)}
+			if repeatID {
+				d.ID = id
+			}
+			ds = append(ds, d)
+		}
+		return ds
+	}
+	chunksOf := func(groups [][]c18Call) []c18Chunk {
+		var cs []c18Chunk
+		for _, g := range groups {
+			cs = append(cs, c18Chunk{Calls: g})
+		}
+		return cs
+	}
+	names := []string{"t1", "t2", "t1"}
+	for _, ncalls := range []int{2, 3} {
+		for _, pieces := range []int{1, 2} {
+			for _, how := range []string{"contig", "rr-chunk", "rr-single"} {
+				for _, idxMode := range []string{"asc", "desc", "gap"} {
+					for _, variant := range []string{"default", "whole", "chain", "rd", "repeat-id", "unindexed"} {
+						if variant != "default" && variant != "whole" && how != "rr-chunk" {
+							continue
+						}
+						c := base()
+						per := make([][]c18Call, ncalls)
+						for k := 0; k < ncalls; k++ {
+							ix := k
+							switch idxMode {
+							case "desc":
+								ix = ncalls - 1 - k
+							case "gap":
+								ix = 2*k + 1
+							}
+							per[k] = deltas(k, names[k], ix, pieces, variant == "repeat-id")
+						}
+						switch variant {
+						case "whole":
+							c.Checker = "whole"
+						case "chain":
+							c.Host = "chain"
+						case "rd":
+							c.RD = []string{"t2"}
+						case "unindexed": // the last call arrives whole, without Index
+							per[ncalls-1] = []c18Call{{ID: "call_w", Name: "t2", Args: "{}"}}
+						}
+						var groups [][]c18Call
+						if how == "contig" { // two deltas per chunk, each call's deltas back to back
+							var flat []c18Call
+							for _, ds := range per {
+								flat = append(flat, ds...)
+							}
+							for i := 0; i < len(flat); i += 2 {
+								j := i + 2
+								if j > len(flat) {
+									j = len(flat)
+								}
+								groups = append(groups, flat[i:j])
+							}
+						} else {
+							groups = c18Arrange(nil, per, how)
+						}
+						c.Script = []c18Reply{{Chunks: chunksOf(c18CanonChunks(groups))}, answer}
+						out = append(out, c)
+					}
+				}
+			}
+		}
+	}
 	return out
 }
 
@@ -1065,6 +1487,12 @@ func c18Shape(c *c18Case) string {
 	rd := "plain"
 	if len(c.RD) > 0 {
 		rd = "rd"
+	}
+	for i := range c.Script {
+		if c18HasIndex(&c.Script[i]) {
+			rd += ":indexed-deltas" // some turn streams its tool calls as deltas keyed by Index
+			break
+		}
 	}
 	if c.Host != "" && c.Host != "agent" {
 		return fmt.Sprintf("checker=%s:%s:host=%s", c.Checker, rd, c.Host)
@@ -1122,10 +1550,26 @@ func c18Check(ctx *vh.Ctx, c *c18Case, raw json.RawMessage, topoModel map[bool]j
 
 	// accounting
 	late, metaHead := false, false
+	fragmented, interleaved, mixed := false, false, false
 	ncalls := 0
 	for i := range c.Script {
 		if c18Late(&c.Script[i]) {
 			late = true
+		}
+		if c18Fragmented(&c.Script[i]) {
+			fragmented = true
+		}
+		if c18Interleaved(&c.Script[i]) {
+			interleaved = true
+		}
+		if c18HasIndex(&c.Script[i]) {
+			for _, ch := range c.Script[i].Chunks {
+				for _, d := range ch.Calls {
+					if d.Index == nil {
+						mixed = true
+					}
+				}
+			}
 		}
 		if c18MetaHead(&c.Script[i]) {
 			metaHead = true
@@ -1141,6 +1585,7 @@ func c18Check(ctx *vh.Ctx, c *c18Case, raw json.RawMessage, topoModel map[bool]j
 	ctx.Res.Dist(fmt.Sprintf("late-toolcall-reply=%v", late))
 	ctx.Res.Dist(fmt.Sprintf("metadata-only-head-before-toolcall=%v", metaHead))
 	ctx.Res.Dist("host=" + c18Host(c))
+	ctx.Res.Dist(fmt.Sprintf("toolcall-deltas:fragmented=%v:interleaved-across-indexes=%v:with-unindexed-call=%v", fragmented, interleaved, mixed))
 	if model.Limit != nil && c18Host(c) != "agent" {
 		// does the script distinguish MaxStep from compose's default (nodes + 10)?
 		def := 12
@@ -1175,7 +1620,7 @@ func c18Check(ctx *vh.Ctx, c *c18Case, raw json.RawMessage, topoModel map[bool]j
 		ctx.Res.Dist(fmt.Sprintf("%s:modelcalls=%d", m.n, len(m.r.Seen)))
 	}
 	malformed := c18Malformed(c)
-	ctx.Res.Dist(fmt.Sprintf("malformed(dup-ids+rd)=%v", malformed))
+	ctx.Res.Dist(fmt.Sprintf("malformed(dup-ids+rd|non-canonical-chunk)=%v", malformed))
 	ctx.Res.Count(c18Key(c), len(gen.Evs) >= 3 || gen.Result.Err == "maxSteps")
 	ctx.Res.Sample(c)
 
@@ -1221,7 +1666,7 @@ func c18Check(ctx *vh.Ctx, c *c18Case, raw json.RawMessage, topoModel map[bool]j
 }
 
 func runC18(ctx *vh.Ctx) error {
-	ctx.Res.Rule = "random ReAct scripts: 1-8 (hosted: up to 12) replies with 0-3 tool calls streamed in 1-9 chunks (empty leading/middle chunks, chunks carrying only provider metadata — Extra entries / ResponseMeta usage, finish reason / Name — in front of, between and on content and tool-call chunks, calls in the first non-empty chunk / spread / behind content), 1-4 tools (echo/const/fail, invokable/streamable, unknown names, duplicate and empty call ids), return-directly sets, MaxStep <0/0/1-30, MessageModifier off/system/tail, default or whole-stream checker; host = Agent.Generate/Stream, or the graph from Agent.ExportGraph() added with its options to a parent chain / parent graph run with Invoke/Stream; both modes on the real agent vs the Lean model (model inputs, node executions, result/error class), Generate vs Stream, graph topology via compile callback; a systematic corpus first (looping and long scripts x MaxStep below/at/above compose's default x host; one metadata-only head chunk per metadata kind); non-trivial = at least one tools round or the step limit was hit; distinct by (chunk shapes of every reply, tools, return-directly set, MaxStep, modifier, checker, #orig, host)"
+	ctx.Res.Rule = "random ReAct scripts: 1-8 (hosted: up to 12) replies with 0-3 tool calls streamed in 1-9 chunks (40% of the tool-calling turns as deltas keyed by Index: head with id and name, arguments in 1-3 pieces, id / name now and then repeated, indexes ascending / descending / with gaps / permuted, one call now and then whole without Index, the deltas of the calls back to back / one per call per chunk / one per chunk round-robin / merged at random; empty leading/middle chunks, chunks carrying only provider metadata — Extra entries / ResponseMeta usage, finish reason / Name — in front of, between and on content and tool-call chunks, calls in the first non-empty chunk / spread / behind content), 1-4 tools (echo/const/fail, invokable/streamable, unknown names, duplicate and empty call ids), return-directly sets, MaxStep <0/0/1-30, MessageModifier off/system/tail, default or whole-stream checker; host = Agent.Generate/Stream, or the graph from Agent.ExportGraph() added with its options to a parent chain / parent graph run with Invoke/Stream; both modes on the real agent vs the Lean model (model inputs, node executions, result/error class), Generate vs Stream, graph topology via compile callback; a systematic corpus first (looping and long scripts x MaxStep below/at/above compose's default x host; one metadata-only head chunk per metadata kind; 2-3 parallel calls as deltas x arrangement x index order x checker / host / return-directly / repeated id / unindexed call); non-trivial = at least one tools round or the step limit was hit; distinct by (chunk shapes of every reply, tools, return-directly set, MaxStep, modifier, checker, #orig, host)"
 	topoModel := map[bool]json.RawMessage{}
 	for _, rd := range []bool{false, true} {
 		raw, err := ctx.Oracle.Ask("C18", map[string]any{"kind": "topology", "rd": rd})
